@@ -100,6 +100,7 @@ def _nonstr(kind, n):
 CODES = sorted(c for c in ERROR_CODE_MAP if c)
 MIMES = ['text/html', 'application/json', 'text/plain', 'application/xml', None, 'image/png', '', 'text/HTML', 'application/*']
 DETAILS = ['plain', '<b>bold</b> & "q"', 'é\x00 ', '']
+DETAILS += ['a' * n + '<&>"\'' * 4 for n in (4085, 4088, 4090, 4092)] + ['&' * 5000]
 
 
 def _snake(name):
